@@ -33,3 +33,12 @@ void vx_havoc(void)
 #define VX_ITEM_BUCKET (VX_ITEM_COMPLETE ? nterm_count + g_it_t : (VX_ITEM_SYM.term ? nterm_count + VX_ITEM_SYM.idx : VX_ITEM_SYM.idx))
 #define VX_STATE_WF(s) (VX_SV_WF(states__all_situations_vec[s]) && VX_BS_WF(states__kernel[s], situation_address_space_size) && VX_BS_WF(simple_states[s], situation_address_space_size) && \
    __CPROVER_forall { size_t vq_swf; (vq_swf < PH_SYMS) ==> VX_SV_WF(states__situations_by_symbol[s][vq_swf]) })
+/* ---- transitions(): ghost record of the conflict decision ---- */
+unsigned g_sc_n; size16_t g_sc_rule, g_sc_term; uint8_t g_sc_res; unsigned g_red_n;   /* ghost: reductions (other than the root rule) seen in the bucket */
+#define VX_SC_SPEC(r, t) ((gi.rule_precedences[gi.rule_infos[r].r_idx] > gi.term_precedences[t] || (gi.rule_precedences[gi.rule_infos[r].r_idx] == gi.term_precedences[t] && gi.rule_associativities[gi.rule_infos[r].r_idx] == associativity__ltor)) ? parse_table_entry_kind__reduce : parse_table_entry_kind__shift)
+/* add_situation as transitions() uses it for the kernel of the target state: any in-range item into an in-range state
+   (abstract stand-in; add_situation's own contract is stated for one ghost-decoded item) */
+bool vx_add_situation_any(size16_t state_idx, size32_t sit_idx, bool to_kernel)
+__CPROVER_requires(state_idx < state_count_cap && state_idx < state_count && sit_idx < situation_address_space_size)
+__CPROVER_assigns(vx_thrown, simple_states[state_idx], states__all_situations_vec[state_idx], states__kernel[state_idx], __CPROVER_object_upto(&states__situations_by_symbol[state_idx][0], sizeof(states__situations_by_symbol[0])))
+__CPROVER_ensures(vx_thrown == 0);
